@@ -350,7 +350,9 @@ Section Ops.
     if (deficit <=? 0)%Z then m1 else swc_loop (nsegs m1) m1 k cap 1 deficit.
 
   Definition sm_all (m : segmap) : list (N * N) := flat_map tall (sm_segs m).
-  Definition sm_clear (m : segmap) : segmap := mk_segmap (map tclear (sm_segs m)) 0%Z.
+  (* Clear: per segment, under its lock: itemsCleared = Len(); Clear(); count.Add(-itemsCleared) *)
+  Definition sm_clear (m : segmap) : segmap :=
+    mk_segmap (map tclear (sm_segs m)) (fold_left (fun c t => c - tlen t)%Z (sm_segs m) (sm_count m)).
   Definition sm_clear_segment (m : segmap) (index : Z) : segmap :=
     if (index <? 0)%Z || (Z.of_nat (nsegs m) <=? index)%Z then m else
     let i := Z.to_nat index in
